@@ -118,7 +118,8 @@ def palettes(draw):
         for kx in draw(st.lists(st.sampled_from(["X", "B", "Z", gone.lower(), "*"]), min_size=1, max_size=3, unique=True)):
             d[kx] = draw(st.sampled_from(COLOURS))
     elif how == "bad-colour":
-        d[draw(st.sampled_from(list(ref.AA)))] = draw(st.sampled_from(["pink", "", "#ff0000", None, "Red ", "cyan", "grey", " red", 5]))
+        d[draw(st.sampled_from(list(ref.AA)))] = draw(st.sampled_from(["pink", "", "#ff0000", None, "Red ", "cyan", "grey", " red", 5, "orangered", "yellowgreen", "navyblue", "red ", "blueviolet", "darkred", "limegreen",
+                                                                     "RED", "re", "aquamarine", "whitesmoke"]))
     elif how == "late-bad-colour":
         # the invalid entry is the alphabetically last amino acid: a key-by-key commit would already have changed earlier ones
         d[draw(st.sampled_from(["Y", "W", "V"]))] = "pink"
